@@ -19,7 +19,9 @@ RULE = ("Histories of 1-6 requests on ONE protocol/inverter object; every reques
         "min(k+1, retries+1) identical transmissions spaced exactly one timeout apart and end as scripted.  "
         "Systematic part: all outcome sequences up to the tier's length before a final probe x {udp,tcp} x keep-alive "
         "x (timeout,retries) grid; plus entry points connect()/discover()/search_inverters() against silent and "
-        "selectively answering peers; plus seeded random histories.  Non-trivial: a history with at least one "
+        "selectively answering peers; plus seeded random histories; plus CONCURRENT callers (2-4 tasks, C06's "
+        "workload) against a lossy or silent peer: every request, whoever else is in progress on the object, makes at "
+        "most retries+1 transmissions and does not give up before it has made them.  Non-trivial: a history with at least one "
         "non-ok request; distinct: (config, sequence of (type,k,think-bucket,newloop), observed tx counts).")
 ASSUMPTIONS = [
     "fake transports reproduce CPython 3.12 selector transport semantics (DESIGN 2.2)",
@@ -35,7 +37,7 @@ LEVEL_NOTE = ("Trusted: transport model, virtual clock.  Requests after a transp
 TECHNIQUE = "deterministic simulation of request histories with scripted per-request fault sequences"
 
 TYPES = ["ok", "drops_ok", "exhaust", "drops_exc", "senderr", "icmp", "rst", "fin", "refused", "drops_sockerr",
-         "stray_frag", "senderr_all", "garbage_ok", "unreach", "drops_unreach", "garbage2"]
+         "stray_frag", "senderr_all", "garbage_ok", "unreach", "drops_unreach", "garbage2", "drops_frag"]
 SETTINGS = [(0.5, 1), (1.0, 3), (0.25, 2)]
 SWEEP_LEN = {"quick": 2, "thorough": 3}
 N_RANDOM = {"quick": 25_000, "thorough": 1_000_000}
@@ -91,14 +93,17 @@ def warm(tier):
     _space(tier)
 
 
+N_CONCURRENT = {"quick": 4_000, "thorough": 200_000}
+
+
 def n_cases(tier):
-    return len(_space(tier)) + N_RANDOM[tier]
+    return len(_space(tier)) + N_RANDOM[tier] + N_CONCURRENT[tier]
 
 
 def _mkreq(rnd, typ, tau, r, tr, think=None, newloop=False):
     q = {"type": typ, "think": think if think is not None else rnd.choice([0.0, 0.0, tau / 2, tau, 3 * tau]),
          "newloop": newloop}
-    if typ in ("drops_ok", "drops_exc"):
+    if typ in ("drops_ok", "drops_exc", "drops_frag"):
         q["k"] = rnd.randint(0 if typ == "drops_exc" else 1, r) if r > 0 else 0
     if typ == "drops_unreach":
         q["k"] = rnd.randint(1, r) if r > 0 else 0
@@ -119,9 +124,25 @@ def _mkreq(rnd, typ, tau, r, tr, think=None, newloop=False):
     return q
 
 
+def make_concurrent(rnd):
+    """2-4 concurrent callers (C06's workload) against a lossy or silent peer: the budget is per REQUEST also when
+    the requests of several callers are in progress at the same time."""
+    from . import c06
+    case = c06.random_case(rnd)
+    case["level"] = "execute"
+    p = rnd.choice([0.3, 0.6, 1.0])
+    n = rnd.choice([2, 4, 8, 40])
+    case["faults"] = [{"k": "drop"} if rnd.random() < p else {"k": "ok"} for _ in range(n)]
+    case["count"] = min(case["count"], 16)
+    case["kind"] = "concurrent"
+    return case
+
+
 def make_case(tier, seed, index):
     rnd = C.rng_for(seed, ID, index)
     space = _space(tier)
+    if index >= len(space) + N_RANDOM[tier]:
+        return make_concurrent(rnd)
     if index < len(space):
         c = space[index]
         if c[0] == "history":
@@ -196,6 +217,11 @@ def _script(q, tau, r, tr):
     if t == "drops_ok":
         k = min(q["k"], r)
         return [drop] * k + [ok], ok, [], {"tx": k + 1, "outcome": "result"}
+    if t == "drops_frag":
+        # k lost transmissions, then the answer arrives in two pieces (success through the reassembly path)
+        k = min(q["k"], r)
+        return [drop] * k + [{"k": "frag", "s": 9, "d1": DEFAULT_LATENCY, "d2": tau / 4}], ok, [], \
+            {"tx": k + 1, "outcome": "result"}
     if t == "exhaust":
         return [], drop, [], {"tx": r + 1, "outcome": "failed"}
     if t == "drops_exc":
@@ -240,7 +266,39 @@ def _script(q, tau, r, tr):
     raise ValueError(t)
 
 
+def run_concurrent(case):
+    from . import c06
+    tr, r = case["transport"], case["retries"]
+    world, dev, results, status = c06.simulate(case)
+    violations = []
+    if status != "ok":
+        violations.append(viol(f"C05:hang:concurrent:{tr}", f"callers did not terminate: {status}"))
+    reg_of = c06.by_register(world.net, tr)
+    for rec in sorted(results, key=lambda q: (q["caller"], q["reg"])):
+        own = reg_of.get(rec["reg"], [])
+        n = len(own)
+        others = sorted({t["reg"] for t in world.net.transmissions} - {rec["reg"]})
+        if n > r + 1:
+            violations.append(viol(f"C05:concurrent:over-budget:{tr}",
+                                   f"caller {rec['caller']} reg {rec['reg']}: {n} transmissions with retries={r} while "
+                                   f"requests for {others} were in progress on the same object"))
+            break
+        if rec["outcome"] in ("failed", "maxretries") and n < r + 1:
+            violations.append(viol(f"C05:concurrent:under-budget:{tr}",
+                                   f"caller {rec['caller']} reg {rec['reg']}: gave up after {n} transmission(s) with "
+                                   f"retries={r} (all lost) while requests for {others} were in progress on the same object"))
+            break
+    txs = world.net.transmissions
+    sig = (tr, case["keep_alive"], r, tuple((t["reg"] & 0xFF, t["fault"]) for t in txs[:24]))
+    interleaved = any(a["reg"] != b["reg"] for a, b in zip(txs, txs[1:]))
+    return C.package(world, case, violations, sig, interleaved,
+                     {"concurrent_cases": 1, "concurrent_requests": len(results),
+                      "concurrent_interleaved": 1 if interleaved else 0})
+
+
 def run_case(case):
+    if case["kind"] == "concurrent":
+        return run_concurrent(case)
     if case["kind"] == "history":
         return run_history(case)
     if case["kind"] == "connect":
